@@ -96,3 +96,9 @@ claim("C17",
   "Decides structural necessary conditions of C17 for every reconcile input: the reservation-first eviction is unreachable while the reservation is missing, pending, expired, unscheduled without completed preemption, or placed on the pod's own node, and every such check is evaluated on every path to the eviction; a finished job reaches no effectful call; the evictor is not called when the condition is True/Evicting or the reservation is bound by another pod, and a successful eviction always persists the Evicting condition; the TTL abort deletes the reservation before marking the job failed and retries on delete errors. It does not decide multi-reconcile histories with faults or 'at most once' across reconciles.",
   "trusts go/ssa and the rule tables in internal/rules/c17.go; abortJobIfReserveOnSameNode failing open on a read error is noted in DESIGN.md as not claimed",
   "DESIGN.md §4 C17")
+
+claim("C18",
+  "custom SSA rules: dominating-guard and re-evaluation rules in the eviction loop, must-decrement exploration after a successful eviction, early-exit exploration of the pool processing under each 'nothing to do' condition, provenance of the source/destination arguments, exploration of the continue-condition closure",
+  "Decides structural necessary conditions of C18 for every node pool: a pod is evicted only when the continue-condition evaluated in the same iteration holds and the pod passes the filters, the condition is re-evaluated and the running estimates decremented between evictions; the balance call is unreachable when no node is overloaded / confirmed anomalous / underused, too few or all are underused; sources are exactly the anomaly-filtered overloaded classes and destinations the underused classes; the continue-condition is true only for a still overutilized node with positive headroom. It does not decide threshold arithmetic, classification or anomaly counters over rounds.",
+  "trusts go/ssa and the rule tables in internal/rules/c18.go",
+  "DESIGN.md §4 C18")
